@@ -74,6 +74,7 @@ fn errkind(s: &str) -> io::ErrorKind {
         "InvalidData" => io::ErrorKind::InvalidData,
         "UnexpectedEof" => io::ErrorKind::UnexpectedEof,
         "Interrupted" => io::ErrorKind::Interrupted,
+        "WriteZero" => io::ErrorKind::WriteZero,
         _ => io::ErrorKind::Other,
     }
 }
@@ -463,6 +464,10 @@ impl TState {
 
     fn do_write(&mut self, buf: &[u8]) -> io::Result<usize> {
         if let Some(e) = self.check_fault("write") {
+            // fault "WriteZero": the transport does not report an error, it just accepts nothing (Ok(0))
+            if e.kind() == io::ErrorKind::WriteZero && !self.livelock {
+                return Ok(0);
+            }
             return Err(e);
         }
         let n = if self.short_writes.is_empty() {
